@@ -7,6 +7,7 @@ from ..core import Machinery
 from ..session import ObjSession
 
 SYM = {"A": "BTC-USDT", "B": "ETH-USDT"}
+TYP_R = {"MARKET": "MKT", "LIMIT": "LMT", "STOP": "STP"}
 RSYM = {v: k for k, v in SYM.items()}
 TYP = {"MKT": "MARKET", "LMT": "LIMIT", "STP": "STOP"}
 ST = {"ACTIVE": "A", "EXECUTED": "E", "CANCELED": "C"}
@@ -492,6 +493,28 @@ def random_history(kind, hdr, seed, nops, dups=0.0, prices=(6, 7, 8, 9, 10, 11, 
             if kind == "futures":
                 q = rng.choice(qtys)
                 ro = pos_q != 0 and ((pos_q > 0) == (side == "sell")) and rng.random() < 0.5
+                mine = [o for o in s.orders if o.is_active and o.symbol == SYM[sy]]
+                wal, mar = s.exchange.assets[s.exchange.settlement_currency], s.exchange.available_margin
+                y = rng.random()
+                if mine and y < 0.15:
+                    # look-alike: same (side, qty, price) as a resting order, the other reduce-only flag where that is
+                    # legal - the reserved tables hold anonymous [qty, price] rows
+                    o = rng.choice(mine)
+                    side, q = o.side, units(abs(o.qty), QU)
+                    typ = rng.choice(["LMT", "STP"]) if o.type == "MARKET" else TYP_R[o.type]
+                    price = int(o.price)
+                    ro = (not o.reduce_only) and pos_q != 0 and ((pos_q > 0) == (side == "sell"))
+                elif mar > wal and y < 0.45:
+                    # unrealised profit has pushed the available margin above the wallet balance: sizes between the
+                    # two must be accepted, sizes just above the margin rejected
+                    lev = hdr.get("Lev", 1)
+                    inside = [(a, b) for a in qtys for b in prices if wal * QU < a * b / lev <= mar * QU]
+                    above = [(a, b) for a in qtys for b in prices if mar * QU < a * b / lev <= mar * QU * 1.5 + 1]
+                    pick = above if (above and rng.random() < 0.08) else inside
+                    if pick:
+                        q, price = rng.choice(pick)
+                        typ = rng.choice(["LMT", "STP"])
+                        ro = False
                 if not ro:
                     resting = sum(units(abs(o.qty), QU) for o in s.orders if o.is_active and o.symbol == SYM[sy]
                                   and not o.reduce_only and o.side == side)
